@@ -6,13 +6,15 @@ ROOT = os.path.dirname(os.path.abspath(__file__))
 out = {}
 d = os.path.join(ROOT, "lean", "CelModel", "Props")
 for f in sorted(os.listdir(d)):
-    m = re.match(r"(C\d+)\.lean$", f)
+    m = re.match(r"(C\d+)(\w*)\.lean$", f)
     if not m:
         continue
     pid = m.group(1)
     src = open(os.path.join(d, f), encoding="utf-8").read()
     ns = re.search(r"^namespace\s+(\S+)", src, re.M).group(1)
     names = re.findall(r"^theorem\s+(\S+)", src, re.M)
-    out[pid] = {"module": f"CelModel.Props.{pid}", "theorems": [f"{ns}.{n}" for n in names]}
+    ent = out.setdefault(pid, {"modules": [], "theorems": []})
+    ent["modules"].append("CelModel.Props." + f[:-5])
+    ent["theorems"] += [f"{ns}.{n}" for n in names]
 json.dump(out, open(os.path.join(ROOT, "lean", "obligations.json"), "w"), indent=1)
 print({k: len(v["theorems"]) for k, v in out.items()})
